@@ -1,6 +1,7 @@
 import QuantemModel.Core.Proto
 import QuantemModel.Model.Radon
 import QuantemModel.Model.RadonExt
+import QuantemModel.Model.RadonExt2
 open Lean QuantemModel QuantemModel.Proto QuantemModel.Radon
 
 namespace DrvC07
@@ -92,6 +93,36 @@ def step (st : Unit) (j : Json) : Unit × Json :=
         match (if alg == "torch" then iradonTorchE sino th out name circle else iradonSkE sino th out name circle) with
         | .ok r => pure (Json.mkObj [("ok", floatsToJson r.flatten), ("size", Json.num (JsonNumber.fromNat r.length))])
         | .error e => pure (errJson e)
+    | "iradon_batch" =>
+        -- batched call [B][A][N] -> [B][out][out] through the batched accumulation loop (recon += proj per angle)
+        let n ← natField j "n"
+        let a ← natField j "a"
+        let b ← natField j "b"
+        let sinos := (chunk (← floatList (← field j "sino")) (a * n)).map fun s => chunk s n
+        let th ← match fieldD j "theta" Json.null with
+          | Json.null => pure none
+          | t => (floatList t).map some
+        let nm ← match parseFilter (← strField j "filter") with
+          | some nm => pure nm
+          | none => throw "bad filter name"
+        let circle ← boolField j "circle"
+        let m ← match fieldD j "out" Json.null with
+          | Json.null => pure (outputSize (R := Float) n circle)
+          | o => o.getNat?
+        if sinos.length != b then throw "bad batch" else
+        let out := iradonTorchBatchLoop sinos th nm circle m
+        pure (Json.mkObj [("ok", floatsToJson out.flatten.flatten), ("size", Json.num (JsonNumber.fromNat m))])
+    | "geom" =>
+        -- the integers iradon_torch derives from the detector width (exact)
+        let n ← natField j "n"
+        let circle ← boolField j "circle"
+        let out ← match fieldD j "out" Json.null with
+          | Json.null => pure none
+          | o => (o.getNat?).map some
+        let g := iradonGeom (R := Float) n circle out
+        let num := fun (k : Nat) => Json.num (JsonNumber.fromNat k)
+        pure (Json.mkObj [("D", num g.D), ("pad_before", num g.padBefore), ("pad_after", num g.padAfter), ("P", num g.P),
+                          ("pad_y", num g.padY), ("out", num g.out)])
     | _ => throw s!"bad op {op}" : Except String Json) with
   | .ok r => (st, r)
   | .error e => (st, errJson s!"driver:{e}")
